@@ -88,7 +88,7 @@ Theorem C03_compiled_builtin_call_anywhere : forall Bf nm b e d s s' w,
   SpecS Bf (NCall (NName nm) [e]) d 0 s s' w.
 Proof.
   intros Bf nm b e d s s' w Hb Hp Hwf H.
-  apply (comp_stmt Bf (NCall (NName nm) [e])); [cbn [wstmt is_bcall]; exact Hp|reflexivity|exact Hwf|exact H].
+  apply (comp_stmt Bf (NCall (NName nm) [e])); [cbn [wstmt is_bcall forallb]; rewrite Hp; reflexivity|reflexivity|exact Hwf|exact H].
 Qed.
 Print Assumptions C03_compiled_builtin_call_anywhere.
 
@@ -106,8 +106,9 @@ Theorem C03_compiled_builtin_call_any_history : forall Bf nm b e mc1 c1 m1 mc2 c
    tree_agrees (snd (run_tree false mc2 (NCall (NName nm) [e]))) res).
 Proof.
   intros Bf nm b e mc1 c1 m1 mc2 c2 m2 o1 o2 n W1' res Hnob Hb Hp Hn Hwfb R1 R2 HR HM.
-  assert (Hw : wstmt (NCall (NName nm) [e]) = true) by (cbn [wstmt is_bcall]; exact Hp).
-  destruct (stmt_relocation Bf Hnob _ mc1 c1 m1 mc2 c2 m2 o1 o2 n W1' res R1 R2 Hw Hwfb Hn HR HM) as [S|[S|(A1 & A2 & _)]];
+  assert (Hw : wstmt (NCall (NName nm) [e]) = true) by (cbn [wstmt is_bcall forallb]; rewrite Hp; reflexivity).
+  assert (Hn' : nobs Bf (NCall (NName nm) [e]) = true) by (cbn [nobs forallb]; rewrite Hn; reflexivity).
+  destruct (stmt_relocation Bf Hnob _ mc1 c1 m1 mc2 c2 m2 o1 o2 n W1' res R1 R2 Hw Hwfb Hn' HR HM) as [S|[S|(A1 & A2 & _)]];
     [left; exact S|right; left; exact S|right; right; split; assumption].
 Qed.
 Print Assumptions C03_compiled_builtin_call_any_history.
@@ -126,7 +127,7 @@ Theorem C03_user_function_result : forall Bf n W nm e W' res,
     end.
 Proof.
   intros Bf n W nm e W' res Hb H. apply (ssem_ucall Bf _ _ _ _ _ _ Hb) in H.
-  destruct H as (body & mo & fid & Hbody & _ & _ & _ & H). exists body. split; [exact Hbody|].
+  destruct H as (body & mo & fid & Hbody & _ & _ & _ & _ & H). exists body. split; [exact Hbody|].
   destruct (den (w_glob W) e) as [x|err]; [destruct H as (-> & -> & _)|destruct H as [-> ->]]; repeat split.
 Qed.
 Print Assumptions C03_user_function_result.
@@ -138,7 +139,7 @@ Theorem C03_compiled_user_call_anywhere : forall Bf nm e d s s' w,
   SpecS Bf (NCall (NName nm) [e]) d 0 s s' w.
 Proof.
   intros Bf nm e d s s' w Hb Hp Hwf H.
-  apply (comp_stmt Bf (NCall (NName nm) [e])); [cbn [wstmt is_bcall]; exact Hp|reflexivity|exact Hwf|exact H].
+  apply (comp_stmt Bf (NCall (NName nm) [e])); [cbn [wstmt is_bcall forallb]; rewrite Hp; reflexivity|reflexivity|exact Hwf|exact H].
 Qed.
 Print Assumptions C03_compiled_user_call_anywhere.
 
@@ -154,8 +155,9 @@ Theorem C03_compiled_user_call_any_history : forall Bf nm e mc1 c1 m1 mc2 c2 m2 
    tree_agrees (snd (run_tree false mc2 (NCall (NName nm) [e]))) res).
 Proof.
   intros Bf nm e mc1 c1 m1 mc2 c2 m2 o1 o2 n W1' res Hnob Hp Hn Hwfb R1 R2 HR HM.
-  assert (Hw : wstmt (NCall (NName nm) [e]) = true) by (cbn [wstmt is_bcall]; exact Hp).
-  destruct (stmt_relocation Bf Hnob _ mc1 c1 m1 mc2 c2 m2 o1 o2 n W1' res R1 R2 Hw Hwfb Hn HR HM) as [S|[S|(A1 & A2 & _)]];
+  assert (Hw : wstmt (NCall (NName nm) [e]) = true) by (cbn [wstmt is_bcall forallb]; rewrite Hp; reflexivity).
+  assert (Hn' : nobs Bf (NCall (NName nm) [e]) = true) by (cbn [nobs forallb]; rewrite Hn; reflexivity).
+  destruct (stmt_relocation Bf Hnob _ mc1 c1 m1 mc2 c2 m2 o1 o2 n W1' res R1 R2 Hw Hwfb Hn' HR HM) as [S|[S|(A1 & A2 & _)]];
     [left; exact S|right; left; exact S|right; right; split; assumption].
 Qed.
 Print Assumptions C03_compiled_user_call_any_history.
